@@ -1,5 +1,5 @@
 (* Lemmas for C19 (ICARTT ffi1001 writer / reader). *)
-From Coq Require Import String Ascii.
+From Coq Require Import String Ascii DecimalString.
 From PNC Require Import Base.Util Model.Icartt.
 Local Open Scope Z_scope.
 
@@ -698,4 +698,313 @@ Lemma eval_list_length toks a :
   exists ms, eval_list (join sep (a :: toks)) = Some ms /\ length ms = length (a :: toks).
 Proof.
   intros H. eexists. split; [apply (eval_list_print _ _ H)|]. rewrite map_length. reflexivity.
+Qed.
+
+
+(* ------------------------------------------------------------------ '%d' never contains a line break *)
+Lemma s2z_cons a s : s2z (String a s) = Z.of_N (N_of_ascii a) :: s2z s.
+Proof. reflexivity. Qed.
+
+Lemma no_nl_uint d : has_char cNL (s2z (NilEmpty.string_of_uint d)) = false.
+Proof.
+  induction d; cbn [NilEmpty.string_of_uint]; try reflexivity; rewrite s2z_cons; cbn [has_char existsb];
+    fold (has_char cNL (s2z (NilEmpty.string_of_uint d))); rewrite IHd; reflexivity.
+Qed.
+
+Lemma no_nl_zstr z : no_nl (zstr z) = true.
+Proof.
+  unfold no_nl, zstr. apply negb_true_iff. unfold NilZero.string_of_int.
+  destruct (Z.to_int z) as [d|d]; unfold NilZero.string_of_uint.
+  - destruct d; try reflexivity; apply no_nl_uint.
+  - rewrite s2z_cons. cbn [has_char existsb].
+    match goal with |- _ || ?x = false => assert (E : x = false) end.
+    { fold (has_char cNL (s2z match d with Decimal.Nil => "0"%string | _ => NilEmpty.string_of_uint d end)).
+      destruct d; try reflexivity; apply no_nl_uint. }
+    rewrite E. reflexivity.
+Qed.
+
+(* ------------------------------------------------------------------ the whole header loop *)
+Lemma cls_fixed n nm nsc li : 2 <= li <= 9 -> classify n nm nsc li = K_fixed.
+Proof. intros; unfold classify; split_tests. Qed.
+Lemma cls_skip10 n nm nsc : 0 <= nm -> 0 <= nsc -> 15 <= n -> classify n nm nsc 10 = K_skip.
+Proof. intros; unfold classify; split_tests. Qed.
+Lemma cls_scale n nm nsc : classify n nm nsc 11 = K_scale.
+Proof. unfold classify; split_tests. Qed.
+Lemma cls_missing n nm nsc : classify n nm nsc 12 = K_missing.
+Proof. unfold classify; split_tests. Qed.
+Lemma cls_desc n nm nsc li : 12 < li <= 12 + nm -> classify n nm nsc li = K_desc.
+Proof. intros; unfold classify; split_tests. Qed.
+Lemma cls_spcount n nm nsc : 0 <= nm -> classify n nm nsc (12 + nm + 1) = K_spcount.
+Proof. intros; unfold classify; split_tests. Qed.
+Lemma cls_ucount n nm : 0 <= nm -> classify n nm 0 (12 + nm + 2) = K_ucount.
+Proof. intros; unfold classify; split_tests. Qed.
+Lemma cls_user n nm li : 0 <= nm -> 12 + nm + 2 < li < n -> classify n nm 0 li = K_user.
+Proof. intros; unfold classify; split_tests. Qed.
+Lemma cls_names n nm : 0 <= nm -> 12 + nm + 2 < n -> classify n nm 0 n = K_names.
+Proof. intros; unfold classify; split_tests. Qed.
+
+Lemma run_step n li k l t s s' :
+  step n li l s = Some s' -> run_header n li (S k) (PT l :: t) s = run_header n (li + 1) k t s'.
+Proof. intros H; cbn [run_header]; rewrite H; reflexivity. Qed.
+
+Ltac split_eqs :=
+  repeat match goal with |- context [?a =? ?b] => destruct (Z.eqb_spec a b) end; try lia.
+
+(* lines 2..8 only set attributes *)
+Lemma step_fixed_attr n li line sc ms U nsc last A vars : 2 <= li <= 8 ->
+  exists A', step n li line (St sc ms U nsc last A vars) = Some (St sc ms U nsc last A' vars).
+Proof.
+  intros H. unfold step. cbn [s_miss s_nsc]. rewrite cls_fixed by lia.
+  destruct (Z.eqb_spec li 2); [eexists; reflexivity|].
+  destruct (Z.eqb_spec li 3); [eexists; reflexivity|].
+  destruct (Z.eqb_spec li 4); [eexists; reflexivity|].
+  destruct (Z.eqb_spec li 5); [eexists; reflexivity|].
+  destruct (Z.eqb_spec li 6); [eexists; reflexivity|].
+  destruct (Z.eqb_spec li 7); [eexists; reflexivity|].
+  destruct (Z.eqb_spec li 8); [eexists; reflexivity|]. lia.
+Qed.
+
+(* line 9: the unit of the independent variable as the reader extracts it *)
+Definition line9_unit (line : str) : str :=
+  let parts := map strip (split_on cCOMMA (strip line)) in
+  match parts with [_] => nth_str 0 parts | _ => nth_str 1 parts end.
+
+Lemma step9 n line sc ms U nsc last A vars :
+  exists A', step n 9 line (St sc ms U nsc last A vars) = Some (St sc ms (U ++ [line9_unit line]) nsc last A' vars).
+Proof.
+  unfold step. cbn [s_miss s_nsc]. rewrite cls_fixed by lia.
+  change (9 =? 2) with false. change (9 =? 3) with false. change (9 =? 4) with false. change (9 =? 5) with false.
+  change (9 =? 6) with false. change (9 =? 7) with false. change (9 =? 8) with false. cbv iota.
+  eexists. unfold set_units, upd_attr, line9_unit. cbn [s_scales s_miss s_units s_nsc s_last s_attrs s_vars]. reflexivity.
+Qed.
+
+(* description lines: any number *)
+Lemma run_desc n sc ms A : forall (dl : list str) (us : list str) li m rest U last,
+  Forall2 (fun line u => snd (parse_desc line) = u) dl us ->
+  12 < li -> li + Z.of_nat (length dl) <= 13 + Z.of_nat (length ms) ->
+  run_header n li (length dl + m) (map PT dl ++ rest) (St sc ms U 0 last A None)
+  = run_header n (li + Z.of_nat (length dl)) m rest (St sc ms (U ++ us) 0 last A None).
+Proof.
+  induction dl as [|l t IH]; intros us li m rest U last HF Hlo Hhi; inversion HF as [|? u ? us' Hu HF']; subst.
+  - cbn [length map app Nat.add]. rewrite app_nil_r. f_equal. cbn. lia.
+  - cbn [length map app Nat.add]. cbn [length] in Hhi.
+    erewrite run_step.
+    2:{ unfold step. cbn [s_miss s_nsc]. rewrite cls_desc by lia. unfold set_units.
+        cbn [s_scales s_miss s_units s_nsc s_last s_attrs s_vars]. reflexivity. }
+    rewrite (IH us' (li + 1) m rest (U ++ [snd (parse_desc l)]) last HF') by lia.
+    rewrite <- app_assoc. cbn [app]. f_equal. lia.
+Qed.
+
+(* user comment lines: any number; only attributes and the last-attribute pointer change *)
+Definition not_continuation (l : str) : bool := match l with c :: _ => negb (c =? 32) | [] => true end.
+
+Lemma run_user n sc ms U : forall (al : list str) li m rest last A,
+  forallb not_continuation al = true ->
+  12 + Z.of_nat (length ms) + 2 < li -> li + Z.of_nat (length al) <= n ->
+  exists A' last',
+  run_header n li (length al + m) (map PT al ++ rest) (St sc ms U 0 last A None)
+  = run_header n (li + Z.of_nat (length al)) m rest (St sc ms U 0 last' A' None).
+Proof.
+  induction al as [|l t IH]; intros li m rest last A Hc Hlo Hhi.
+  - exists A, last. cbn [length map app Nat.add]. f_equal. cbn. lia.
+  - cbn [forallb] in Hc. apply andb_true_iff in Hc as [Hl Ht]. cbn [length] in Hhi.
+    assert (Hs : exists A1 last1, step n li l (St sc ms U 0 last A None) = Some (St sc ms U 0 last1 A1 None)).
+    { unfold step. cbn [s_miss s_nsc]. rewrite cls_user by lia.
+      destruct l as [|c l']; [eexists; eexists; reflexivity|].
+      cbn [not_continuation] in Hl. apply negb_true_iff in Hl. apply Z.eqb_neq in Hl.
+      destruct c as [|p|p]; try (eexists; eexists; reflexivity).
+      do 6 (try (destruct p as [p|p|]; try (eexists; eexists; reflexivity))). exfalso; apply Hl; reflexivity. }
+    destruct Hs as (A1 & last1 & Hs).
+    destruct (IH (li + 1) m rest last1 A1 Ht ltac:(lia) ltac:(lia)) as (A' & last' & E).
+    exists A', last'. cbn [length map app Nat.add]. rewrite (run_step _ _ _ _ _ _ _ Hs), E. f_equal. lia.
+Qed.
+
+
+(* THE HEADER STATE MACHINE ON A WHOLE HEADER, for any number of description and comment lines:
+   if the scale and missing lines evaluate, there are as many description lines as missing codes,
+   the special-comment count is 0, no comment line starts with a blank and the declared count is
+   comments + descriptions + 15, the loop consumes exactly the header and ends with the names of the
+   names line, the codes of the missing line and the units of line 9 and of the description lines *)
+Lemma header_run n l2 l3 l4 l5 l6 l7 l8 l9 l10 l11 l12 dl us l13 l14 al lnames scs mss v0 vs rest :
+  n = Z.of_nat (length al) + Z.of_nat (length dl) + 15 ->
+  eval_list l11 = Some scs -> eval_list l12 = Some mss -> length mss = length dl ->
+  Forall2 (fun line u => snd (parse_desc line) = u) dl us ->
+  parse_int l13 = Some 0 -> forallb not_continuation al = true ->
+  parse_names lnames = v0 :: vs ->
+  exists A last,
+  run_header n 2 (11 + (length dl + (2 + (length al + 1))))
+    (map PT ([l2; l3; l4; l5; l6; l7; l8; l9; l10; l11; l12] ++ dl ++ [l13; l14] ++ al ++ [lnames]) ++ rest) (s0_of n)
+  = Some (St (map snd scs) mss (line9_unit l9 :: us) 0 last A (Some (v0 :: vs)), rest).
+Proof.
+  intros Hn Hsc Hms Hlen HF H13 Hal Hnames. unfold s0_of.
+  cbn [map app Nat.add].
+  destruct (step_fixed_attr n 2 l2 [] [] [] 0 None [(s2z "fmt", s2z "1001"); (s2z "n_header_lines", zstr n)] None ltac:(lia)) as (A2 & E2).
+  rewrite (run_step _ _ _ _ _ _ _ E2). cbn [Z.add Pos.add Pos.succ].
+  destruct (step_fixed_attr n 3 l3 [] [] [] 0 None A2 None ltac:(lia)) as (A3 & E3). rewrite (run_step _ _ _ _ _ _ _ E3). cbn [Z.add Pos.add Pos.succ].
+  destruct (step_fixed_attr n 4 l4 [] [] [] 0 None A3 None ltac:(lia)) as (A4 & E4). rewrite (run_step _ _ _ _ _ _ _ E4). cbn [Z.add Pos.add Pos.succ].
+  destruct (step_fixed_attr n 5 l5 [] [] [] 0 None A4 None ltac:(lia)) as (A5 & E5). rewrite (run_step _ _ _ _ _ _ _ E5). cbn [Z.add Pos.add Pos.succ].
+  destruct (step_fixed_attr n 6 l6 [] [] [] 0 None A5 None ltac:(lia)) as (A6 & E6). rewrite (run_step _ _ _ _ _ _ _ E6). cbn [Z.add Pos.add Pos.succ].
+  destruct (step_fixed_attr n 7 l7 [] [] [] 0 None A6 None ltac:(lia)) as (A7 & E7). rewrite (run_step _ _ _ _ _ _ _ E7). cbn [Z.add Pos.add Pos.succ].
+  destruct (step_fixed_attr n 8 l8 [] [] [] 0 None A7 None ltac:(lia)) as (A8 & E8). rewrite (run_step _ _ _ _ _ _ _ E8). cbn [Z.add Pos.add Pos.succ].
+  destruct (step9 n l9 [] [] [] 0 None A8 None) as (A9 & E9). rewrite (run_step _ _ _ _ _ _ _ E9). cbn [Z.add Pos.add Pos.succ app].
+  (* line 10 is skipped *)
+  erewrite run_step.
+  2:{ unfold step. cbn [s_miss s_nsc length]. rewrite cls_skip10 by lia. reflexivity. }
+  cbn [Z.add Pos.add Pos.succ].
+  (* scale factors, missing codes *)
+  erewrite run_step.
+  2:{ unfold step. cbn [s_miss s_nsc length]. rewrite cls_scale, Hsc. reflexivity. }
+  cbn [Z.add Pos.add Pos.succ s_scales s_miss s_units s_nsc s_last s_attrs s_vars].
+  erewrite run_step.
+  2:{ unfold step. cbn [s_miss s_nsc length]. rewrite cls_missing, Hms. reflexivity. }
+  cbn [Z.add Pos.add Pos.succ s_scales s_miss s_units s_nsc s_last s_attrs s_vars].
+  (* description lines *)
+  rewrite map_app, <- app_assoc.
+  rewrite (run_desc n (map snd scs) mss A9 dl us 13 _ _ [line9_unit l9] None HF) by lia.
+  cbn [map app Nat.add].
+  (* special comment count = 0, user comment count *)
+  erewrite run_step.
+  2:{ unfold step. cbn [s_miss s_nsc]. replace (13 + Z.of_nat (length dl)) with (12 + Z.of_nat (length mss) + 1) by lia.
+      rewrite cls_spcount by lia. rewrite H13. reflexivity. }
+  erewrite run_step.
+  2:{ unfold step. cbn [s_miss s_nsc]. replace (13 + Z.of_nat (length dl) + 1) with (12 + Z.of_nat (length mss) + 2) by lia.
+      rewrite cls_ucount by lia. reflexivity. }
+  cbn [s_scales s_miss s_units s_nsc s_last s_attrs s_vars].
+  (* user comments *)
+  rewrite map_app, <- app_assoc.
+  destruct (run_user n (map snd scs) mss (line9_unit l9 :: us) al (13 + Z.of_nat (length dl) + 1 + 1) 1
+              (map PT [lnames] ++ rest) None A9 Hal ltac:(lia) ltac:(lia)) as (A' & last' & EU).
+  rewrite EU.
+  (* names line *)
+  cbn [map app]. cbn [run_header].
+  assert (EN : step n (13 + Z.of_nat (length dl) + 1 + 1 + Z.of_nat (length al)) lnames
+                 (St (map snd scs) mss (line9_unit l9 :: us) 0 last' A' None)
+               = Some (St (map snd scs) mss (line9_unit l9 :: us) 0 last' (set_attr (s2z "TFLAG") v0 A') (Some (v0 :: vs)))).
+  { unfold step. cbn [s_miss s_nsc].
+    replace (13 + Z.of_nat (length dl) + 1 + 1 + Z.of_nat (length al)) with n by lia.
+    rewrite cls_names by lia. rewrite Hnames. reflexivity. }
+  rewrite EN. eexists. eexists. reflexivity.
+Qed.
+
+(* line 9 "name, units" gives the units back *)
+Lemma line9_print ind u :
+  stripped (join sep [ind; u]) = true -> has_char cCOMMA ind = false ->
+  has_char cCOMMA u = false -> stripped u = true ->
+  line9_unit (join sep [ind; u]) = u.
+Proof.
+  intros Hs Hi Hu Su. unfold line9_unit. rewrite (stripped_strip _ Hs).
+  assert (Hc : forallb (fun t => negb (has_char cCOMMA t)) [ind; u] = true) by (cbn [forallb]; rewrite Hi, Hu; reflexivity).
+  rewrite (split_join [u] ind Hc). cbn [map nth_str nth]. rewrite strip_sp. apply stripped_strip, Su.
+Qed.
+
+(* hypotheses on the input file under which the writer's header is read back (all booleans) *)
+Definition desc_ok (v : var) : bool :=
+  negb (has_char cCOMMA (v_name v)) && stripped (v_name v)
+  && negb (has_char cCOMMA (units_str v)) && stripped (units_str v).
+Definition header_ok (f : file) (ind : str) : bool :=
+  let deps := depvars ind f in
+  match deps with [] => false | _ => true end
+  && forallb clean_code (map code_str deps)
+  && forallb desc_ok deps
+  && forallb not_continuation (map (fun kv : str * str => fst kv ++ [cCOLON; cSP] ++ one_line (snd kv)) (myattrs f))
+  && forallb word_tok (ind :: map v_name deps)
+  && forallb (fun s => negb (has_char cSLASH s)) (ind :: map v_name deps).
+
+Lemma desc_lines_parse deps : forallb desc_ok deps = true ->
+  Forall2 (fun line u => snd (parse_desc line) = u)
+          (map (fun v => join sep [v_name v; units_str v]) deps) (map units_str deps).
+Proof.
+  induction deps as [|v t IH]; cbn [forallb map]; intros H; constructor.
+  - apply andb_true_iff in H as [H _]. unfold desc_ok in H.
+    apply andb_true_iff in H as [H H4]. apply andb_true_iff in H as [H H3]. apply andb_true_iff in H as [H1 H2].
+    apply negb_true_iff in H1, H3. rewrite (parse_desc_print _ _ H1 H2 H3 H4). reflexivity.
+  - apply IH. apply andb_true_iff in H as [_ H]. exact H.
+Qed.
+
+(* WHOLE FILE, header part: the reader's loop run on the writer's output, for any number of dependent
+   variables, attributes and records, ends exactly at the first data row with the variable names in
+   order, every missing-code token, the units of every dependent variable and what line 9 carries *)
+Lemma write_then_read_header f n ls ind sd :
+  impl_write f = Some (n, ls) ->
+  indep_name f = Some ind -> get_attr (s2z "SDATE") (f_attrs f) = Some sd ->
+  forallb no_nl (hdr_other f ind sd) = true ->
+  header_ok f ind = true ->
+  exists s rows,
+    run_header n 2 (Z.to_nat (n - 1)) ls (s0_of n) = Some (s, map PR rows)
+    /\ s_vars s = Some (ind :: map v_name (depvars ind f))
+    /\ map fst (s_miss s) = map code_str (depvars ind f)
+    /\ map snd (s_miss s) = map code_of (map code_str (depvars ind f))
+    /\ s_units s = line9_unit (indep_line f ind) :: map units_str (depvars ind f)
+    /\ length (s_scales s) = length (depvars ind f)
+    /\ s_nsc s = 0.
+Proof.
+  intros W Hi Hs Hn Hok.
+  destruct (header_count_exact _ _ _ _ _ W Hi Hs Hn) as (rows & El & Elen & En & _). subst ls.
+  unfold header_ok in Hok.
+  apply andb_true_iff in Hok as [Hok Hsl]. apply andb_true_iff in Hok as [Hok Hw].
+  apply andb_true_iff in Hok as [Hok Hal]. apply andb_true_iff in Hok as [Hok Hd].
+  apply andb_true_iff in Hok as [Hne Hcodes].
+  set (deps := depvars ind f) in *. set (my := myattrs f) in *.
+  destruct deps as [|d0 dt] eqn:Edeps; [discriminate|]. rewrite <- Edeps in *.
+  assert (Hones : forallb clean_code (map (fun _ : var => s2z "1") deps) = true).
+  { clear. induction deps as [|v t IH]; [reflexivity|]. cbn [map forallb]. rewrite IH. reflexivity. }
+  assert (Esc : exists scs, eval_list (join sep (map (fun _ : var => s2z "1") deps)) = Some scs /\ length scs = length deps).
+  { rewrite Edeps in *. cbn [map] in *. destruct (eval_list_length _ _ Hones) as (ms & E & L).
+    exists ms. split; [exact E|]. rewrite L. cbn [length]. rewrite map_length. reflexivity. }
+  destruct Esc as (scs & Esc & Lsc).
+  assert (Ems : eval_list (join sep (map code_str deps)) = Some (map (fun t => (t, code_of t)) (map code_str deps))).
+  { rewrite Edeps in *. cbn [map] in *. apply eval_list_print, Hcodes. }
+  assert (Enames : parse_names (join sep (ind :: map v_name deps)) = ind :: map v_name deps).
+  { apply parse_names_print; [discriminate|exact Hw|exact Hsl]. }
+  destruct (header_run n
+              (attr_or "PI_NAME" "Unknown" (f_attrs f)) (attr_or "ORGANIZATION_NAME" "Unknown" (f_attrs f))
+              (attr_or "SOURCE_DESCRIPTION" "Unknown" (f_attrs f)) (attr_or "MISSION_NAME" "Unknown" (f_attrs f))
+              (attr_or "VOLUME_INFO" "1, 1" (f_attrs f)) (sd ++ [cSP] ++ attr_or "WDATE" "2000, 01, 01" (f_attrs f))
+              (attr_or "TIME_INTERVAL" "0" (f_attrs f)) (indep_line f ind) (zstr (Z.of_nat (length deps)))
+              (join sep (map (fun _ : var => s2z "1") deps)) (join sep (map code_str deps))
+              (map (fun v => join sep [v_name v; units_str v]) deps) (map units_str deps)
+              (s2z "0") (zstr (Z.of_nat (length my)))
+              (map (fun kv : str * str => fst kv ++ [cCOLON; cSP] ++ one_line (snd kv)) my)
+              (join sep (ind :: map v_name deps))
+              scs (map (fun t => (t, code_of t)) (map code_str deps)) ind (map v_name deps) (map PR rows))
+    as (A & last & ER).
+  - rewrite !map_length. exact En.
+  - exact Esc.
+  - exact Ems.
+  - rewrite !map_length. reflexivity.
+  - apply desc_lines_parse, Hd.
+  - reflexivity.
+  - exact Hal.
+  - exact Enames.
+  - eexists. exists rows. split; [|repeat split].
+    + replace (Z.to_nat (n - 1)) with (11 + (length (map (fun v => join sep [v_name v; units_str v]) deps)
+              + (2 + (length (map (fun kv : str * str => fst kv ++ [cCOLON; cSP] ++ one_line (snd kv)) my) + 1))))%nat.
+      * unfold hdr_strings. fold deps. fold my. exact ER.
+      * rewrite !map_length. rewrite En. unfold str in *. lia.
+    + reflexivity.
+    + cbn [s_miss]. rewrite !map_map. apply map_ext. reflexivity.
+    + cbn [s_miss]. rewrite !map_map. apply map_ext. reflexivity.
+    + reflexivity.
+    + cbn [s_scales]. rewrite map_length. exact Lsc.
+    + reflexivity.
+Qed.
+
+(* the reader applied to the writer's output = the data stage applied to that header state *)
+Lemma roundtrip_through_header f n ls ind sd :
+  impl_write f = Some (n, ls) ->
+  indep_name f = Some ind -> get_attr (s2z "SDATE") (f_attrs f) = Some sd ->
+  forallb no_nl (hdr_other f ind sd) = true ->
+  header_ok f ind = true ->
+  exists s rows,
+    impl_roundtrip f = read_data n s (map PR rows)
+    /\ s_vars s = Some (ind :: map v_name (depvars ind f))
+    /\ map fst (s_miss s) = map code_str (depvars ind f)
+    /\ map snd (s_miss s) = map code_of (map code_str (depvars ind f))
+    /\ s_units s = line9_unit (indep_line f ind) :: map units_str (depvars ind f)
+    /\ length (s_scales s) = length (depvars ind f)
+    /\ s_nsc s = 0.
+Proof.
+  intros W Hi Hs Hn Hok.
+  destruct (write_then_read_header _ _ _ _ _ W Hi Hs Hn Hok) as (s & rows & R & P).
+  exists s, rows. split; [|exact P]. unfold impl_roundtrip, impl_read. rewrite W, R. reflexivity.
 Qed.
